@@ -409,3 +409,133 @@ def fam_gym_shipped(seed, shard, nshards, n):
                     ops.append(('W' if with_state else 'T', idx))
             opstr, exp = run_gym_history(genv, wrapper, ops, rng.randrange(2**31))
             yield f'gym {spec} {enc} {int(with_state)} {opstr}', exp, f'gym-{mode}-{enc}'
+
+
+# ---------------------------------------------------------------------------------------------
+# several live environments + the library-level generator (C02)
+# ---------------------------------------------------------------------------------------------
+
+
+def run_world(envs, ops, lib_seed):
+    """ops: ('E', i, 'S', seed) | ('E', i, 'R') | ('E', i, 'T', a) | ('E', i, 'GS') | ('E', i, 'GO') | ('L', n)"""
+    import random as pyrandom
+    import numpy as np
+    from gym_gridverse.rng import get_gv_rng
+
+    lib = RecRng(lib_seed)
+    saved = rng_mod._gv_rng
+    rng_mod._gv_rng = lib
+    own = [None] * len(envs)
+    gens = []  # generators in order of creation, to attach answers to S ops
+    for e in envs:
+        e._rng = None
+        e._state = None
+        e._observation = None
+    outs = []
+    glob0 = (np.random.get_state()[1].tobytes(), pyrandom.getstate())
+    try:
+        for op in ops:
+            try:
+                if op[0] == 'L':
+                    try:
+                        get_gv_rng().choice(op[1])
+                    except ValueError:
+                        pass
+                    outs.append('ok')
+                    continue
+                i, kind = op[1], op[2]
+                env = envs[i]
+                if kind == 'S':
+                    g = RecRng(op[3])
+                    env.set_seed(op[3])
+                    env._rng = g
+                    own[i] = g
+                    gens.append(g)
+                    outs.append('ok')
+                elif kind == 'R':
+                    env.reset()
+                    outs.append('ok')
+                elif kind == 'T':
+                    a = ACTIONS[op[3]]
+                    s = env._state
+                    r, done = env.step(a)
+                    parts = reward_parts(env, s, a, env._state)
+                    toks = [f'I{envspec.sc(p)}' for p in parts]
+                    if r != sum(parts):
+                        toks.append('SUM-MISMATCH')
+                    outs.append(' '.join(toks) + ' ' + ('T' if done else 'F'))
+                elif kind == 'GS':
+                    outs.append(enc_state(env.state))
+                elif kind == 'GO':
+                    outs.append(enc_state(env.observation))
+            except Exception as e:
+                outs.append(enc_exc(e))
+    finally:
+        rng_mod._gv_rng = saved
+    glob1 = (np.random.get_state()[1].tobytes(), pyrandom.getstate())
+    toks = []
+    gi = 0
+    for op in ops:
+        if op[0] == 'L':
+            toks.append(f'L {op[1]}')
+        elif op[2] == 'S':
+            ans = gens[gi].answers
+            gi += 1
+            toks.append(f'E {op[1]} S {len(ans)} ' + ' '.join(map(str, ans)) if ans else f'E {op[1]} S 0')
+        elif op[2] == 'T':
+            toks.append(f'E {op[1]} T {op[3]}')
+        else:
+            toks.append(f'E {op[1]} {op[2]}')
+    head = f'{len(lib.answers)} ' + ' '.join(map(str, lib.answers)) if lib.answers else '0'
+    # the last generator of each env carries its log (a re-seed starts a new log, as in the model)
+    env_logs = ' ; '.join(g.log_str() if g is not None else '-' for g in own)
+    exp = ' ; '.join(outs) + ' | ' + lib.log_str() + ' | ' + env_logs
+    if glob0 != glob1:
+        exp += ' GLOBAL-RNG-PERTURBED'
+    return f'{head} {len(ops)} ' + ' '.join(toks), exp
+
+
+def fam_world(seed, shard, nshards, n):
+    """three instances of one configuration, random interleavings, foreign draws on the library
+    generator; some instances stay unseeded for a while (they then draw from the library stream)"""
+    rng = random.Random(f'world-{seed}-{shard}')
+    files = YAML_FILES
+    for k in range(n // nshards):
+        path = rng.choice(files)
+        data = load(path)
+        try:
+            spec = envspec.env_tokens(data)
+        except envspec.Unsupported:
+            continue
+        nenv = 3
+        envs = [factory_env_from_data(copy.deepcopy(data)) for _ in range(nenv)]
+        nact = len(envs[0].action_space.actions)
+        ops = []
+        seeded_all = rng.random() < 0.8
+        started = [False] * nenv
+        if seeded_all:
+            sd = rng.randrange(2**31)
+            same = rng.random() < 0.5
+            for i in range(nenv):
+                ops.append(('E', i, 'S', sd if same else rng.randrange(2**31)))
+        for _ in range(rng.randint(8, 40)):
+            r = rng.random()
+            if r < 0.1:
+                ops.append(('L', rng.randint(0, 5)))
+                continue
+            i = rng.randrange(nenv)
+            if not started[i]:
+                ops.append(('E', i, 'R'))
+                started[i] = True
+            elif r < 0.6:
+                ops.append(('E', i, 'T', rng.randrange(nact)))
+            elif r < 0.75:
+                ops.append(('E', i, 'GO'))
+            elif r < 0.85:
+                ops.append(('E', i, 'GS'))
+            elif r < 0.93:
+                ops.append(('E', i, 'R'))
+            else:
+                ops.append(('E', i, 'S', rng.randrange(2**31)))
+        opstr, exp = run_world(envs, ops, rng.randrange(2**31))
+        yield f'world {spec} {nenv} {opstr}', exp, 'world-' + ('seeded' if seeded_all else 'mixed')
